@@ -244,7 +244,14 @@ Record fixes := { fix_f02 : bool; fix_f03 : bool }.
 
 (* one injected message: which instance it is addressed to, the envelope's
    peer identity, the wire content *)
-Record inj := { i_inst : nat; i_env : peer; i_wire : wmsg }.
+(* The identity on an envelope is a PAIR: the public key ([i_env], PKey k = the
+   key of server k; what TLS authenticates and what ServerIdentity.Equal
+   compares) and the deprecated, self-declared [ID] field of the identity the
+   peer sent in the connection handshake ([i_decl]: None = the id derived from
+   the key, Some j = the ID value of server j's identity, or any other number
+   for a zero / random value).  The code decides on the KEY; [i_decl] is read
+   by nothing below. *)
+Record inj := { i_inst : nat; i_env : peer; i_decl : option nat; i_wire : wmsg }.
 
 (* a scenario's static part: the tree, the TreeNodeID named by the To token of
    every instance (the instance is created on first use, on the node
